@@ -253,7 +253,13 @@ Proof.
     unfold on_slot in *. destruct (nth_error (sl st) j); cbn [fst snd sl] in *;
       [rewrite nth_set_nth_neq in Hb; auto|]; rewrite Hn in Hb; congruence.
   - apply OS; auto. intros E. cbn [ms]. destruct (live s).
-    + destruct (handle_frame_marks v j f (mkM s (nreq st) (free st) (queue st) [])) as (m1 & m2 & _). split; auto.
+    + destruct (handle_frame_marks v j f (mkM s (nreq st) (free st) (queue st) [])) as (m1 & m2 & _).
+      destruct (vtd v && in_net (ph s) && existsb is_lcp_down (mo (handle_frame v j f (mkM s (nreq st) (free st) (queue st) [])))) eqn:Et.
+      * apply andb_true_iff in Et. destruct Et as [_ Et]. apply existsb_exists in Et. destruct Et as (o & Ho & Io).
+        destruct o; try discriminate. split.
+        -- intros o K. unfold terminate. cbn. right. right. apply m1. exact K.
+        -- intros _ _. unfold terminate. cbn. right. right. exact Ho.
+      * split; auto.
     + split; [intros o K; exact K|intros; congruence].
   - destruct (find_idx (pend_matches v k) (sl st) 0) as [j|] eqn:Ef; [|cbn [fst] in Hb; rewrite Hn in Hb; congruence].
     apply OS; auto. intros E. set (m0 := mkM s (nreq st) (free st) (queue st) []).
@@ -296,7 +302,11 @@ Proof.
     rewrite (proj2 (proj2 (lcp_apply_marks v j (fsm_open (vrfc v)) _ (fsm_open_ok (vrfc v))))).
     rewrite (proj2 (proj2 (lcp_apply_marks v j fsm_up _ fsm_up_ok))). cbn. auto.
   - exfalso. apply (Nat.lt_irrefl (free st)). eapply Nat.le_lt_trans; [|exact Hlt]. apply OS. intros s. cbn [ms].
-    destruct (live s); auto. rewrite (proj2 (proj2 (handle_frame_marks v j f _))). auto.
+    destruct (live s); auto.
+    pose proof (proj2 (proj2 (handle_frame_marks v j f (mkM s (nreq st) (free st) (queue st) [])))) as F. cbn [mfree] in F.
+    destruct (vtd v && in_net (ph s) && existsb is_lcp_down (mo (handle_frame v j f (mkM s (nreq st) (free st) (queue st) [])))).
+    + eapply Nat.le_trans; [|apply TM]. rewrite F. auto.
+    + rewrite F. auto.
   - destruct (find_idx (pend_matches v k) (sl st) 0) as [j|] eqn:Ef; [|cbn [fst] in Hlt; lia].
     destruct (allowed_of a) eqn:Ea.
     + exists k, a, j. repeat split; auto. rewrite andb_false_r in *. unfold on_slot in *.
